@@ -326,6 +326,120 @@ pub fn drive(log: &mut Log) {
             log.oblige("several_sequences");
         }
     }
+
+    // (c) reads with homopolymers / tandem repeats / N runs longer than two Occ blocks: the BWT then has
+    //     a run of one symbol covering a whole checkpoint-aligned block (Occ rates 65, 70, 128)
+    for rep in 0..log.opts.n(2, 6) {
+        for &k in &[65u32, 70, 128] {
+            case += 1;
+            if !log.mine(case) {
+                continue;
+            }
+            let mut rng = Rng::new(seed, 18, case);
+            let kind = (rep + k as u64) % 5;
+            let unit: Vec<u8> = match kind {
+                0 => b"A".to_vec(),
+                1 => b"c".to_vec(),
+                2 => b"N".to_vec(),
+                3 => b"AC".to_vec(),
+                _ => b"gat".to_vec(),
+            };
+            // every symbol of the unit occurs 2k + 6 .. times in a row of the sorted suffixes
+            let copies = 2 * k as usize + 6 + rng.range(0, 20) as usize;
+            let (ll, rl) = (rng.range(1, 8) as usize, rng.range(1, 6) as usize);
+            let left = rng.seq(ll, b"ACGT");
+            let right = rng.seq(rl, b"ACGT");
+            let mut read = left.clone();
+            for _ in 0..copies {
+                read.extend_from_slice(&unit);
+            }
+            read.extend_from_slice(&right);
+            let mut seqs = vec![read.clone()];
+            if rep % 2 == 1 {
+                let xl = rng.range(3, 12) as usize;
+                seqs.push(rng.seq(xl, b"ACGTN"));
+            }
+            let run_of = |m: usize| -> Vec<u8> { (0..m * unit.len()).map(|i| unit[i % unit.len()]).collect() };
+            let mut job = Job { smems: vec![], all: vec![], paths: vec![] };
+            // patterns: pieces of the run with and without the flanks, on either strand
+            for pi in 0..log.opts.n(4, 6) {
+                let m = rng.range(3, 30) as usize / unit.len().max(1) + 1;
+                let mut p: Vec<u8> = vec![];
+                match pi % 4 {
+                    0 => {
+                        p.extend(run_of(m));
+                        p.extend_from_slice(&right[..right.len().min(3)]);
+                    }
+                    1 => {
+                        p.extend_from_slice(&left[left.len().saturating_sub(3)..]);
+                        p.extend(run_of(m));
+                    }
+                    2 => p.extend(run_of(m)),
+                    _ => {
+                        p.extend(run_of(m));
+                        p.push(*rng.pick(b"ACGTN"));
+                        p.extend(run_of(2));
+                    }
+                }
+                if pi % 2 == 1 {
+                    p = dna::revcomp(&p);
+                }
+                let l = [1usize, 2, 3][pi as usize % 3];
+                job.smems.push((p.clone(), l));
+                if pi % 3 == 0 {
+                    job.all.push((p, 2));
+                }
+            }
+            // the demo's pattern shape: 40 run symbols followed by the right flank
+            let mut p = run_of(40 / unit.len());
+            p.extend_from_slice(&right[..right.len().min(3)]);
+            job.smems.push((p, 1));
+            // chains extending by the run symbol(s) 1..60 times, backwards and forwards
+            for &dir in &[0u8, 1u8] {
+                let steps = rng.range(20, 60) as usize;
+                let ops: Vec<(u8, u8)> = (0..steps)
+                    .map(|i| {
+                        let j = if dir == 0 { unit.len() - 1 - (i % unit.len()) } else { i % unit.len() };
+                        (dir, unit[j])
+                    })
+                    .collect();
+                job.paths.push((-1, ops.clone()));
+                let c0 = if dir == 0 { unit[unit.len() - 1] } else { unit[0] };
+                job.paths.push((c0 as i32, ops[1..].to_vec()));
+            }
+            run_one(log, "run", &seqs, k, &job);
+            log.oblige("bwt_run_longer_than_occ_rate");
+        }
+    }
+
+    // (d) one index over ~126 short reads: 2 x reads sentinels + {$,A,C,G,T,N} = 256 / 258 / 260 symbol
+    //     classes in suffix_array's width dispatch
+    for &reads in &[125usize, 126, 127] {
+        case += 1;
+        if !log.mine(case) {
+            continue;
+        }
+        let mut rng = Rng::new(seed, 19, case);
+        let mut seqs: Vec<Vec<u8>> = vec![];
+        for r in 0..reads {
+            let mut s = vec![b"ACGTN"[r % 5]];
+            for _ in 0..rng.range(0, 2) {
+                s.push(*rng.pick(b"ACGTN"));
+            }
+            seqs.push(s);
+        }
+        let mut job = Job { smems: vec![], all: vec![], paths: vec![] };
+        for pi in 0..5usize {
+            let (i1, i2) = (rng.below(reads as u64) as usize, rng.below(reads as u64) as usize);
+            let mut p = seqs[i1].clone();
+            p.extend_from_slice(&seqs[i2]);
+            job.smems.push((p.clone(), 1 + pi % 2));
+            job.all.push((dna::revcomp(&p), 1));
+        }
+        job.paths.push((-1, vec![(0, b'A'), (1, b'C'), (0, b'N')]));
+        run_one(log, "many", &seqs, 3, &job);
+        log.oblige("fmd_over_120_sequences");
+    }
 }
 
 // (plain helper: the text is only needed here to draw patterns from both strands)
